@@ -300,6 +300,10 @@ func (p *proxyConn) tunnel(name string, res *http.Response, crw io.ReadWriteClos
 	if err := p.writeResponse(res); err != nil {
 		return err
 	}
+	// ReadTimeout bounds reading the request that opened the tunnel, not the tunnelled bytes.
+	if deadlineErr := p.conn.SetReadDeadline(time.Time{}); deadlineErr != nil {
+		log.Error(res.Request.Context(), "can't clear read deadline", "error", deadlineErr)
+	}
 	if err := drainBuffer(crw, p.brw.Reader); err != nil {
 		err := fmt.Errorf("got error while draining read buffer: %w", err)
 		p.traceWroteResponse(res, err)
